@@ -64,6 +64,21 @@ class Graph:
   def terminal(self, nid: int) -> bool:
     return not self.out.get(nid)
 
+  def reachable_terminals(self, nid: int, limit: int = 400000) -> list[int]:
+    """Terminal nodes reachable from nid (breadth first, bounded)."""
+    seen, todo, terms = {nid}, [nid], []
+    while todo and len(seen) < limit:
+      n = todo.pop()
+      outs = self.out.get(n)
+      if not outs:
+        terms.append(n)
+        continue
+      for dst, _, _ in outs:
+        if dst not in seen:
+          seen.add(dst)
+          todo.append(dst)
+    return terms
+
   # ---------------------------------------------------------------- paths
   def random_walk(self, rnd: random.Random, max_len: int = 2000):
     nid = rnd.choice(self.init)
